@@ -500,8 +500,12 @@ where
         self: &'a mut Pin<&mut Self>,
         cx: &mut Context<'_>,
     ) -> Poll<Option<Result<(), ChannelError<C::Error>>>> {
-        while self.poll_ready(cx)?.is_pending() {
+        if self.poll_ready(cx)?.is_pending() {
             ready!(self.poll_flush(cx)?);
+            // A completed flush does not imply readiness for every transport (a bounded-queue
+            // sink can flush trivially while still full), so check readiness once more and wait
+            // to be woken by the transport rather than retrying within this poll.
+            ready!(self.poll_ready(cx)?);
         }
         Poll::Ready(Some(Ok(())))
     }
